@@ -432,10 +432,26 @@ theorem canonObj_sound [CharZero K] (m : OrbModel n) (M : TModel K n) (hM : Resp
     show evalObj M ρ (.sym s) = sgn false * evalObjs M ρ [.sym s]
     rw [sgn_false, evalObjs_cons, evalObjs_nil, mul_one, one_mul]
   | poly ps e =>
-    show evalObj M ρ (.poly ps e) = sgn false * evalObjs M ρ [.poly (canonPoly ps) e]
-    rw [sgn_false, evalObjs_cons, evalObjs_nil, mul_one, one_mul]
-    show _ ^ e = _ ^ e
+    show evalObj M ρ (.poly ps e) = sgn false *
+      evalObjs M ρ (List.replicate e.natAbs (.poly (canonPoly ps) (if e < 0 then -1 else 1)))
+    rw [sgn_false, one_mul]
+    have hrep : ∀ (k : Nat) (o : Obj), evalObjs M ρ (List.replicate k o) = (evalObj M ρ o) ^ k := by
+      intro k o
+      induction k with
+      | zero => simp [evalObjs_nil]
+      | succ k ih => rw [List.replicate_succ, evalObjs_cons, ih, pow_succ, mul_comm]
+    rw [hrep]
+    show _ ^ e = (_ ^ (if e < 0 then (-1 : Int) else 1)) ^ e.natAbs
     rw [canonPoly_sound M hM ρ ps]
+    by_cases he : e < 0
+    · rw [if_pos he]
+      obtain ⟨k, hk⟩ := Int.exists_eq_neg_ofNat (le_of_lt he)
+      subst hk
+      simp [zpow_neg, inv_pow]
+    · rw [if_neg he]
+      obtain ⟨k, hk⟩ := Int.eq_ofNat_of_zero_le (not_lt.mp he)
+      subst hk
+      simp
 
 theorem canonObjs_sound [CharZero K] (m : OrbModel n) (M : TModel K n) (hM : Respects M) (ρ : Asg n)
     (os : List Obj) (hadm : AdmOn m ρ (objsIdxs os)) :
